@@ -84,7 +84,9 @@ def run_case(case):
     cap = case['capacity']
     msgs = ['m%d' % i for i in range(case['k'])]
     events = [{'type': 'websocket.receive', 'text': m} for m in msgs]
-    if case['disconnect'] is not None:
+    if case['disconnect'] == 'bare':
+        events.append({'type': 'websocket.disconnect'})  # the close code is optional in the ASGI spec
+    elif case['disconnect'] is not None:
         events.append({'type': 'websocket.disconnect', 'code': case['disconnect']})
     ops = case['script']
     word = case['word']
@@ -257,7 +259,7 @@ class ScheduleEnum(Suite):
         smax = 3 if tier == 'quick' else 4
         for cap in (0, 1, 2, 4):
             for k in range(0, kmax + 1):
-                for disc in (None, 1000):
+                for disc in (None, 1000, 'bare'):
                     nd = k + (1 if disc is not None else 0)
                     for n in range(1, smax + 1):
                         for sc in itertools.product(range(len(OPS)), repeat=n):
@@ -285,7 +287,7 @@ class ScheduleRandom(Suite):
         return st.builds(
             lambda cap, k, disc, script, word, sr: {'capacity': cap, 'k': k, 'disconnect': disc, 'script': script, 'word': ''.join(word),
                                                     'server_raises': sr},
-            st.sampled_from([0, 1, 1, 2, 3, 4]), st.integers(0, 7), st.sampled_from([None, 1000, 1001, 4000]),
+            st.sampled_from([0, 1, 1, 2, 3, 4]), st.integers(0, 7), st.sampled_from([None, 1000, 1001, 4000, 'bare']),
             st.lists(_op, min_size=1, max_size=9), st.lists(st.sampled_from('DA'), max_size=18), st.booleans())
 
     def run(self, case):
